@@ -11,6 +11,10 @@ def run(chk):
     # every record setting must see the SAME computation graph: recorded graphs differ from run to run in how far the free-running nodes got,
     # so only generated (deterministic) graphs are used here
     base = [j for j in c07.make_jobs(chk, 6 if quick else 24) if j["source"] == "generate" and not j["id"].startswith("s")][:2 if quick else 8]
+    # a graph with sink nodes and prune=True: the sinks have no slot in the compiled graph; init_record must still work (regression of the
+    # fixed finding init_record-raises: KeyError for a pruned node) and records nothing for them
+    srnd = random.Random(chk.rnd.getrandbits(32))
+    base.append(dict(id="p0", cfg=c07.sink_cfg(srnd), source="generate", tmax=48, episodes=1, mode="MCS", prune=True, seed=srnd.getrandbits(16)))
     combos = [dict(zip(FLAGS, b)) for b in itertools.product([False, True], repeat=5)]
     pick = [dict(zip(FLAGS, [True] * 5)), dict(zip(FLAGS, [False] * 5))] + (chk.rnd.sample(combos, 2) if quick else combos)
     jobs = []
